@@ -45,10 +45,13 @@ package db
 //@ extern (*golang.org/x/exp/mmap.ReaderAt).Close
 //@   pure
 
+// os.Open fails when the file does not exist, and may fail for other reasons (permissions, descriptor
+// limit): jr_openable.
+//@ ghost jr_openable bool
 //@ extern os.Open
 //@   modifies alloc jr_pos
 //@   ensures err == nil ==> r0 != nil
-//@   ensures [exists] (err == nil <==> jr_exists) && (err == nil ==> jr_pos == 0)
+//@   ensures [exists] (err == nil <==> (jr_exists && jr_openable)) && (err == nil ==> jr_pos == 0)
 
 //@ extern os.IsNotExist
 //@   pure
@@ -86,7 +89,8 @@ package db
 //@   props C09 C05
 //@   modifies alloc M:bv8 jr_pos
 //@   ensures [absent] !jr_exists ==> !r0 && err == nil
-//@   ensures [decision] JR_ENV() && jr_exists ==> err == nil && (r0 <==> jrnl_hot(jr_bytes, jr_len))
+//@   ensures [unreadable] jr_exists && !jr_openable ==> err != nil
+//@   ensures [decision] JR_ENV() && jr_exists && jr_openable ==> err == nil && (r0 <==> jrnl_hot(jr_bytes, jr_len))
 
 //@ func (*db.filePager).RLock
 //@   props C06 C07
